@@ -12,13 +12,17 @@ from .tlc import MachineryError
 
 # property -> (level, [engine module names])
 REGISTRY = {
+    "C01": ("model_checking", ["bloomfam"]),
     "C03": ("model_checking", ["cuckoo"]),
     "C04": ("model_checking", ["qf"]),
-    "C05": ("model_checking", ["cuckoo"]),
-    "C08": ("model_checking", ["cuckoo"]),
-    "C14": ("model_checking", ["qf", "cuckoo"]),
+    "C05": ("model_checking", ["bloomfam", "cuckoo"]),
+    "C08": ("model_checking", ["bloomfam", "cuckoo"]),
+    "C12": ("model_checking", ["bloomfam"]),
+    "C13": ("model_checking", ["bloomfam"]),
+    "C14": ("model_checking", ["bloomfam", "qf", "cuckoo"]),
+    "C16": ("model_checking", ["bloomfam"]),
     "C15": ("model_checking", ["cuckoo"]),
-    "C19": ("model_checking", ["qf", "cuckoo"]),
+    "C19": ("model_checking", ["bloomfam", "qf", "cuckoo"]),
     "C20": ("model_checking", ["bitarray"]),
 }
 
